@@ -22,6 +22,8 @@ type CoreNet struct {
 	errs   int
 	blocks int
 	maxEv  int
+	mangle  float64
+	mangled int
 }
 
 type CoreOpts struct {
@@ -93,6 +95,13 @@ func (cn *CoreNet) SyncStep(a, b *CNode, limit int, full bool) (int, error) {
 	if limit > 0 && len(diff) > limit {
 		diff = diff[:limit]
 	}
+	if cn.mangle > 0 && len(diff) >= 3 && cn.w.rng.Float64() < cn.mangle {
+		// a response that lost one event in transit: the events that depend
+		// on it cannot be resolved by the receiver and the sync fails midway
+		k := 1 + cn.w.rng.Intn(len(diff)-2)
+		diff = append(append([]*hg.Event{}, diff[:k]...), diff[k+1:]...)
+		cn.mangled++
+	}
 	wire, err := b.core.ToWire(diff)
 	if err != nil {
 		return 0, err
@@ -161,9 +170,20 @@ func (cn *CoreNet) deliver(a *CNode, fromNum int, fromID uint32, diff []*hg.Even
 		}
 	}
 	cn.blocks += len(o["blocks"].([]interface{}))
-	cn.w.Emit(a.num, "Sync", map[string]interface{}{
-		"from": fromNum, "evs": sent, "ins": inserted, "new": created,
-	}, o)
+	x := map[string]interface{}{"from": fromNum, "evs": sent, "ins": inserted, "new": created}
+	if a.fs != nil {
+		if fired := a.fs.TakeFired(); len(fired) > 0 {
+			if !a.lost {
+				a.lostWhy = fired[0]
+			}
+			a.lost = true
+			x["fault"] = fired[0]
+		}
+	}
+	if a.lost {
+		x["lost"] = a.lostWhy
+	}
+	cn.w.Emit(a.num, "Sync", x, o)
 	cn.steps++
 	if serr != nil && !hg.IsNormalSelfParentError(serr) {
 		cn.errs++
